@@ -207,6 +207,12 @@ func (w *slopeWorld) cycle(i int) error {
 			run.Count("slope_probes_not_served", 1)
 		}
 	}
+	if i%3 == 1 {
+		// a session of its own that ends in the login window (its table entry and goroutines must not stay)
+		if hit, why := cutInLoginWindow(w.c, w.e, fmt.Sprintf("slope-%s-login-%d", w.e.name, i), i%2, i%2 == 0, 30*time.Millisecond); !hit {
+			w.c.Ev("slope-login-cut-missed", "cycle", i, "why", why)
+		}
+	}
 	if i%2 == 0 {
 		for _, s := range w.specs {
 			_ = a.p.CloseProxy(s.Name)
